@@ -21,29 +21,44 @@ def hooks_enabled():
     return os.environ.get('DEPCCG_VERIF', '1') == '1'
 
 
-def _flags():
-    flags = ['-O2', '-std=c++11', '-shared', '-fPIC', '-Wall', '-Wno-unused-variable']
+VARIANTS = ('release', 'assert')
+
+
+def _flags(variant='release'):
+    """'release' mirrors how setup.py builds the shipped extension: the interpreter's own
+    CFLAGS (which carry -DNDEBUG -O3) plus setup.py's -std=c++11.  'assert' is the same
+    source with assertions (and libstdc++'s container assertions) alive."""
+    if variant == 'release':
+        import sysconfig
+        flags = [f for f in (sysconfig.get_config_var('CFLAGS') or '-DNDEBUG -O3 -Wall').split() if f != '-g']
+        if '-DNDEBUG' not in flags:
+            flags.append('-DNDEBUG')
+    elif variant == 'assert':
+        flags = ['-O1', '-UNDEBUG', '-D_GLIBCXX_ASSERTIONS', '-Wall']
+    else:
+        raise ValueError(variant)
+    flags += ['-std=c++11', '-shared', '-fPIC', '-Wno-unused-variable']
     if hooks_enabled():
         flags.append('-DDEPCCG_VERIF')
     return flags
 
 
-def source_hash():
+def source_hash(variant='release'):
     h = hashlib.sha256()
     for path in (os.path.join(repo_root(), 'depccg', 'parsing.h'),
                  os.path.join(HERE, 'shim.cpp')):
         with open(path, 'rb') as f:
             h.update(f.read())
         h.update(b'\0')
-    h.update(' '.join(_flags()).encode())
+    h.update(' '.join(_flags(variant)).encode())
     return h.hexdigest()[:16]
 
 
-def build(verbose=False):
+def build(verbose=False, variant='release'):
     """returns path of the shared object for the current tree"""
     os.makedirs(BUILD_DIR, exist_ok=True)
-    digest = source_hash()
-    out = os.path.join(BUILD_DIR, f'libdepsim-{digest}.so')
+    digest = source_hash(variant)
+    out = os.path.join(BUILD_DIR, f'libdepsim-{variant}-{digest}.so')
     if os.path.exists(out):
         return out
     lock_path = os.path.join(BUILD_DIR, '.lock')
@@ -52,7 +67,7 @@ def build(verbose=False):
         if os.path.exists(out):
             return out
         tmp = out + f'.tmp{os.getpid()}'
-        cmd = ['g++'] + _flags() + ['-I', repo_root(), os.path.join(HERE, 'shim.cpp'), '-o', tmp]
+        cmd = ['g++'] + _flags(variant) + ['-I', repo_root(), os.path.join(HERE, 'shim.cpp'), '-o', tmp]
         if verbose:
             print('depsim build:', ' '.join(cmd), file=sys.stderr)
         proc = subprocess.run(cmd, capture_output=True, text=True)
@@ -65,7 +80,7 @@ def build(verbose=False):
             (os.path.join(BUILD_DIR, f) for f in os.listdir(BUILD_DIR)
              if f.startswith('libdepsim-') and f.endswith('.so')),
             key=os.path.getmtime)
-        for old in objs[:-6]:
+        for old in objs[:-12]:
             try:
                 os.unlink(old)
             except OSError:
@@ -74,4 +89,5 @@ def build(verbose=False):
 
 
 if __name__ == '__main__':
-    print(build(verbose=True))
+    for v in VARIANTS:
+        print(build(verbose=True, variant=v))
